@@ -42,7 +42,8 @@ def strip_annotations(repo, *relpaths):
     N3  loads of a module-level constant (a name bound exactly once at module level to an immutable literal, never declared
         `global` in a function, not shadowed in the function) and of a class-level constant read as self.X / cls.X / Class.X
         (bound once in the class body to an immutable literal, never assigned through an instance) are replaced by the literal;
-    N4  `A if not c else B` becomes `B if c else A`.
+    N4  `A if not c else B` becomes `B if c else A`;
+    N5  `if (x := E) ...:` becomes `x = E` followed by `if x ...:` when the walrus is the first thing the test evaluates.
     """
     import ast as _ast
     import copy as _copy
@@ -137,6 +138,34 @@ def strip_annotations(repo, *relpaths):
                     return _ast.copy_location(_ast.AugAssign(target=node.targets[0], op=node.value.op, value=node.value.right), node)
                 return node
 
+            def visit_If(self, node):
+                node = self.generic_visit(node)
+
+                def leftmost(e):
+                    if isinstance(e, _ast.NamedExpr):
+                        return e
+                    if isinstance(e, _ast.Compare):
+                        return leftmost(e.left)
+                    if isinstance(e, _ast.BoolOp):
+                        return leftmost(e.values[0])
+                    if isinstance(e, _ast.UnaryOp):
+                        return leftmost(e.operand)
+                    return None
+
+                w = leftmost(node.test)
+                if w is not None and isinstance(w.target, _ast.Name):
+                    # N5: `if (x := E) ...:` -> `x = E; if x ...:` (the walrus is the first thing the test evaluates)
+                    class R(_ast.NodeTransformer):
+                        def visit_NamedExpr(self, ne):
+                            if ne is w:
+                                return _ast.copy_location(_ast.Name(id=w.target.id, ctx=_ast.Load()), ne)
+                            return self.generic_visit(ne)
+
+                    assign = _ast.copy_location(_ast.Assign(targets=[_ast.Name(id=w.target.id, ctx=_ast.Store())], value=w.value, type_comment=None), node)
+                    node.test = R().visit(node.test)
+                    return [assign, node]
+                return node
+
             def visit_IfExp(self, node):
                 node = self.generic_visit(node)
                 if isinstance(node.test, _ast.UnaryOp) and isinstance(node.test.op, _ast.Not):
@@ -166,10 +195,12 @@ def strip_annotations(repo, *relpaths):
                     newbody.append(st)
                 else:
                     r = tr.visit(st)
-                    newbody.append(r)
-                    for sub in _ast.walk(r):
-                        if isinstance(sub, (_ast.FunctionDef, _ast.AsyncFunctionDef)) and sub is not r:
-                            process(sub, clsname)
+                    rs_ = r if isinstance(r, list) else [r]
+                    newbody.extend(rs_)
+                    for r_ in rs_:
+                        for sub in _ast.walk(r_):
+                            if isinstance(sub, (_ast.FunctionDef, _ast.AsyncFunctionDef)) and sub is not r_:
+                                process(sub, clsname)
             fn.body = newbody
 
         def walk_defs(body, clsname):
